@@ -232,13 +232,13 @@ func (o sop) String() string {
 	return "?"
 }
 
-type script struct {
+type c17script struct {
 	Name   string
 	Stream bool // messages go through the stream and the endpoint's own process loop
 	Ops    []sop
 }
 
-func (s script) String() string {
+func (s c17script) String() string {
 	it := make([]string, len(s.Ops))
 	for i, o := range s.Ops {
 		it[i] = o.String()
@@ -357,7 +357,7 @@ func (h *hh) closer(err error) {
 	}
 }
 
-// ---------- running one script ----------
+// ---------- running one c17script ----------
 
 type caseObs struct {
 	Index      int      `json:"index"`
@@ -368,7 +368,7 @@ type caseObs struct {
 	Sent       []string `json:"sent"`
 	SClose     int      `json:"sclose"`
 	Fails      []string `json:"fails"`
-	Contract   bool     `json:"contract"` // no re-entering callback in the script
+	Contract   bool     `json:"contract"` // no re-entering callback in the c17script
 	Nontrivial bool     `json:"nontrivial"`
 	NoModel    bool     `json:"nomodel"` // oracle-only case (deep exhaustive enumeration): not written for the model
 	Dist       []string `json:"dist"`
@@ -428,7 +428,7 @@ func waitUntil(d time.Duration, cond func() bool) bool {
 	}
 }
 
-// call: operations of a script that breaks the callback contract are expected to hang; do not wait long
+// call: operations of a c17script that breaks the callback contract are expected to hang; do not wait long
 func (r *runner17) call(f func()) string {
 	if !r.obs.Contract {
 		return callWithin(400*time.Millisecond, f)
@@ -454,7 +454,7 @@ func dclass(err error) int {
 	return 8
 }
 
-func runScript(idx int, sc script) *caseObs {
+func runScript(idx int, sc c17script) *caseObs {
 	obs := &caseObs{Index: idx, Desc: sc.String(), Contract: true}
 	r := &runner17{st: newHStream(), live: map[int]*hh{}, obs: obs, stream: sc.Stream}
 	r.e, r.process, r.dispatch = net.VerifEndPoint(r.st)
@@ -807,7 +807,7 @@ loop:
 		r.st.fail(errors.New("harness: end of case"))
 	}
 	obs.Nontrivial = shutdownWithTwo
-	obs.Dist = append(obs.Dist, "mode:"+map[bool]string{true: "stream", false: "direct"}[sc.Stream], "script:"+sc.Name,
+	obs.Dist = append(obs.Dist, "mode:"+map[bool]string{true: "stream", false: "direct"}[sc.Stream], "c17script:"+sc.Name,
 		fmt.Sprintf("maxlive:%d", maxLive), fmt.Sprintf("end:%d", obs.End))
 	return obs
 }
@@ -852,8 +852,8 @@ func genFilter(rng *hx.Rng) fdesc {
 	}
 }
 
-func genScript(rng *hx.Rng, tier string) script {
-	sc := script{Name: "random", Stream: rng.Chance(0.35)}
+func genScript(rng *hx.Rng, tier string) c17script {
+	sc := c17script{Name: "random", Stream: rng.Chance(0.35)}
 	n := 4 + rng.Intn(12)
 	if tier == "thorough" && rng.Chance(0.2) {
 		n += rng.Intn(30)
@@ -964,7 +964,7 @@ func genScript(rng *hx.Rng, tier string) script {
 }
 
 // fixed scripts: the shapes the seeded mutations and the contract probes need
-func fixedScripts() []script {
+func fixedScripts() []c17script {
 	keepAll := fdesc{Kind: 0, Tab: []bb{{true, true}, {true, true}, {true, true}}}
 	never := fdesc{Kind: 0, Tab: nil}
 	once := fdesc{Kind: 1, K: 0, A: bb{true, true}, B: bb{true, false}}
@@ -975,22 +975,22 @@ func fixedScripts() []script {
 		return sop{Kind: opMsg, M: mspec{Typ: 5, Service: 1, Object: 1, Action: act, ID: id, Payload: []byte{1, 2}}}
 	}
 	mk := func(f fdesc, cl, cap int) sop { return sop{Kind: opMake, F: f, Cl: cl, Cap: cap} }
-	var out []script
+	var out []c17script
 	for _, stream := range []bool{false, true} {
 		out = append(out,
-			script{"remove-twice", stream, []sop{mk(keepAll, 1, 2), mk(never, 1, 1), {Kind: opRemove, ID: 0}, {Kind: opRemove, ID: 0}, call(7, 0), {Kind: opClose}}},
-			script{"remove-then-traffic", stream, []sop{mk(keepAll, 1, 2), mk(keepAll, 0, 2), {Kind: opRemove, ID: 0}, ev(8, 1), ev(9, 1), {Kind: opClose}}},
-			script{"one-shot-then-traffic", stream, []sop{mk(once, 1, 1), mk(keepAll, 1, 3), ev(1, 0), ev(2, 0), ev(3, 0), {Kind: opRemove, ID: 0}, {Kind: opClose}}},
-			script{"one-shot-then-close", stream, []sop{mk(once, 1, 1), mk(once, 0, 1), ev(1, 0), {Kind: opClose}, {Kind: opClose}}},
-			script{"blocked-call", stream, []sop{mk(keepAll, 1, 1), mk(keepAll, 1, 0), call(1, 0), call(2, 1), ev(3, 1), {Kind: opRecv, H: 0}, call(4, 2), {Kind: opClose}}},
-			script{"close-twice", stream, []sop{mk(keepAll, 1, 1), mk(never, 0, 0), mk(never, 1, 0), {Kind: opClose}, {Kind: opClose}, {Kind: opRemove, ID: 1}}},
-			script{"close-held-reuse", stream, []sop{mk(keepAll, 1, 2), mk(keepAll, 1, 2), ev(1, 0), {Kind: opClose, Holds: []int{0, 1}}, mk(keepAll, 1, 2), ev(2, 0), {Kind: opRemove, ID: 1}, {Kind: opRelease, H: 1}, {Kind: opRemove, ID: 0}, {Kind: opRelease, H: 0}}},
-			script{"peer-close", stream, []sop{mk(keepAll, 1, 2), mk(never, 1, 0), mk(once, 0, 1), ev(1, 0), {Kind: opPeerClose}, {Kind: opRemove, ID: 0}}},
-			script{"peer-close-after-close", stream, []sop{mk(keepAll, 1, 2), {Kind: opClose}, {Kind: opPeerClose}, {Kind: opRemove, ID: 0}}},
-			script{"close-make-peer-close", false || stream, []sop{mk(keepAll, 1, 2), {Kind: opClose}, mk(keepAll, 1, 2), mk(never, 0, 0), ev(5, 0), {Kind: opPeerClose}, {Kind: opRemove, ID: 0}}},
-			script{"remove-bad-ids", stream, []sop{{Kind: opRemove, ID: 0}, {Kind: opRemove, ID: -1}, {Kind: opRemove, ID: 10}, mk(never, 1, 0), {Kind: opRemove, ID: 1}, {Kind: opRemove, ID: 10}, {Kind: opRemove, ID: 0}, {Kind: opRemove, ID: 0}}},
+			c17script{"remove-twice", stream, []sop{mk(keepAll, 1, 2), mk(never, 1, 1), {Kind: opRemove, ID: 0}, {Kind: opRemove, ID: 0}, call(7, 0), {Kind: opClose}}},
+			c17script{"remove-then-traffic", stream, []sop{mk(keepAll, 1, 2), mk(keepAll, 0, 2), {Kind: opRemove, ID: 0}, ev(8, 1), ev(9, 1), {Kind: opClose}}},
+			c17script{"one-shot-then-traffic", stream, []sop{mk(once, 1, 1), mk(keepAll, 1, 3), ev(1, 0), ev(2, 0), ev(3, 0), {Kind: opRemove, ID: 0}, {Kind: opClose}}},
+			c17script{"one-shot-then-close", stream, []sop{mk(once, 1, 1), mk(once, 0, 1), ev(1, 0), {Kind: opClose}, {Kind: opClose}}},
+			c17script{"blocked-call", stream, []sop{mk(keepAll, 1, 1), mk(keepAll, 1, 0), call(1, 0), call(2, 1), ev(3, 1), {Kind: opRecv, H: 0}, call(4, 2), {Kind: opClose}}},
+			c17script{"close-twice", stream, []sop{mk(keepAll, 1, 1), mk(never, 0, 0), mk(never, 1, 0), {Kind: opClose}, {Kind: opClose}, {Kind: opRemove, ID: 1}}},
+			c17script{"close-held-reuse", stream, []sop{mk(keepAll, 1, 2), mk(keepAll, 1, 2), ev(1, 0), {Kind: opClose, Holds: []int{0, 1}}, mk(keepAll, 1, 2), ev(2, 0), {Kind: opRemove, ID: 1}, {Kind: opRelease, H: 1}, {Kind: opRemove, ID: 0}, {Kind: opRelease, H: 0}}},
+			c17script{"peer-close", stream, []sop{mk(keepAll, 1, 2), mk(never, 1, 0), mk(once, 0, 1), ev(1, 0), {Kind: opPeerClose}, {Kind: opRemove, ID: 0}}},
+			c17script{"peer-close-after-close", stream, []sop{mk(keepAll, 1, 2), {Kind: opClose}, {Kind: opPeerClose}, {Kind: opRemove, ID: 0}}},
+			c17script{"close-make-peer-close", false || stream, []sop{mk(keepAll, 1, 2), {Kind: opClose}, mk(keepAll, 1, 2), mk(never, 0, 0), ev(5, 0), {Kind: opPeerClose}, {Kind: opRemove, ID: 0}}},
+			c17script{"remove-bad-ids", stream, []sop{{Kind: opRemove, ID: 0}, {Kind: opRemove, ID: -1}, {Kind: opRemove, ID: 10}, mk(never, 1, 0), {Kind: opRemove, ID: 1}, {Kind: opRemove, ID: 10}, {Kind: opRemove, ID: 0}, {Kind: opRemove, ID: 0}}},
 		)
-		fill := script{"fill-12", stream, nil}
+		fill := c17script{"fill-12", stream, nil}
 		for i := 0; i < 12; i++ {
 			fill.Ops = append(fill.Ops, mk(keepAll, i%2, 1))
 		}
@@ -1000,14 +1000,13 @@ func fixedScripts() []script {
 	}
 	// the documented contract: callbacks must not call back into the endpoint
 	out = append(out,
-		script{"reenter-closer-remove", false, []sop{{Kind: opMake, F: keepAll, Cl: 2, Cap: 1}, {Kind: opRemove, ID: 0}}},
-		script{"reenter-closer-close", false, []sop{{Kind: opMake, F: keepAll, Cl: 2, Cap: 1}, {Kind: opClose}, {Kind: opRemove, ID: 0}}},
-		script{"reenter-filter", false, []sop{{Kind: opMake, F: keepAll, Fre: true, Cl: 1, Cap: 1}, call(1, 0)}},
-		script{"reenter-closer-nonkeep", false, []sop{{Kind: opMake, F: once, Cl: 2, Cap: 1}, ev(1, 0)}},
+		c17script{"reenter-closer-remove", false, []sop{{Kind: opMake, F: keepAll, Cl: 2, Cap: 1}, {Kind: opRemove, ID: 0}}},
+		c17script{"reenter-closer-close", false, []sop{{Kind: opMake, F: keepAll, Cl: 2, Cap: 1}, {Kind: opClose}, {Kind: opRemove, ID: 0}}},
+		c17script{"reenter-filter", false, []sop{{Kind: opMake, F: keepAll, Fre: true, Cl: 1, Cap: 1}, call(1, 0)}},
+		c17script{"reenter-closer-nonkeep", false, []sop{{Kind: opMake, F: once, Cl: 2, Cap: 1}, ev(1, 0)}},
 	)
 	return out
 }
-
 
 // ---------- exhaustive enumeration (thorough tier) ----------
 
@@ -1039,7 +1038,7 @@ func exhCount(n, maxLen int) int {
 }
 
 // exhScript: the k-th sequence (shorter ones first)
-func exhScript(n, k int, name string) script {
+func exhScript(n, k int, name string) c17script {
 	alpha := exhAlphabet(n)
 	l, p := 1, n
 	for k >= p {
@@ -1047,7 +1046,7 @@ func exhScript(n, k int, name string) script {
 		p *= n
 		l++
 	}
-	sc := script{Name: name}
+	sc := c17script{Name: name}
 	ops := make([]sop, l)
 	for i := l - 1; i >= 0; i-- {
 		ops[i] = alpha[k%n]
@@ -1069,7 +1068,7 @@ const (
 	exhDeepLetters, exhDeepLen   = 7, 7 // oracle-only
 )
 
-func scriptFor(seed uint64, tier string, k int) script {
+func scriptFor(seed uint64, tier string, k int) c17script {
 	fx := fixedScripts()
 	if k < len(fx) {
 		return fx[k]
@@ -1292,7 +1291,6 @@ func stressRound(seed uint64, round int) (fails []string, stats map[string]int) 
 	return fails, stats
 }
 
-
 // ---------- race-detector pass (thorough tier) ----------
 
 // raceChild builds qv with -race (needs cgo; skipped with a note when that is not possible) and runs
@@ -1413,7 +1411,7 @@ func runC17(res *hx.Result, rng *hx.Rng, tier string, outdir string) {
 	res.Rule = "operation sequences on one endPoint (MakeHandler with scripted table/stateful filters, nil or recording closers, queues of capacity 0..3; " +
 		"RemoveHandler of live, stale, negative and out-of-range ids; incoming messages of every type, directly through dispatch or through the stream and the " +
 		"endpoint's own process loop; Close with closers held inside their callback; read error on the stream; consumer receives), fixed scripts + random ones; " +
-		"non-trivial = a removal or shutdown happens while >= 2 handlers are registered; distinct by sha256 of the script text"
+		"non-trivial = a removal or shutdown happens while >= 2 handlers are registered; distinct by sha256 of the c17script text"
 	total := nCases17(tier)
 	obsPath := filepath.Join(outdir, "C17_obs.jsonl")
 	os.Remove(obsPath)
